@@ -8,7 +8,7 @@ import numpy as np
 
 from .. import models as M
 from ..chrun import Cond, run_conditions
-from ..harness import Check, Result
+from ..harness import Check, Inconclusive, Result
 
 TECH = ("CrossHair symbolic execution (z3 strings/ints per path) of the real GraphBuilder naming code with symbolic node / variable names and of the freeze guards with a symbolic choice of "
         "mutator, target and argument; structural facts and pop / copy / deepcopy / copy=True / save-load round trips are concrete executions on an enumerated family of graphs")
@@ -279,14 +279,44 @@ def concrete_checks(chk):
 
     def dup_vars():
         return lsl.GraphBuilder().add(lsl.Var(lsl.Calc(lambda x, y: x + y, lsl.Var(1.0, name="same"), lsl.Var(2.0, name="same"), update_on_init=False), name="c"))
-    for name, gbf in {"2-cycle": cyc1, "self-loop": cyc2, "duplicate node names": dup_nodes, "duplicate variable names": dup_vars}.items():
-        try:
-            gbf().build_model()
-            chk.violation(f"accepted:{name}", f"a graph with a {name} was accepted by build_model", dict(reproduced=True, note="no exception raised"))
-        except Exception:
-            pass
-    chk.extra["concrete_family"] = dict(models=n_models, rejected_graphs=4, note="structural facts and round trips are concrete executions (not solver-quantified)")
-    chk.enumerated += [f"graph {k}" for k in fam] + ["2-cycle", "self-loop", "duplicate node names", "duplicate variable names"]
+    def dup_vars_only():
+        # two different variables named "x" whose nodes all carry distinct names (the first one is named after its construction)
+        v1 = lsl.Var(lsl.Value(1.0, _name="a"))
+        v1.name = "x"
+        v2 = lsl.Var(2.0, name="x")
+        names = [n.name for v in (v1, v2) for n in v.nodes]
+        if len(set(names)) != len(names):
+            raise Inconclusive(f"the two variables share a node name in this tree ({names}): member not constructible")
+        return lsl.GraphBuilder().add(lsl.Var(lsl.Calc(lambda a, b: a + b, v1, v2, update_on_init=False), name="total"))
+
+    def dup_groups():
+        # two different groups of the same name
+        a, b = lsl.Var(1.0, name="ga"), lsl.Var(2.0, name="gb")
+        lsl.Group("g", a=a)
+        lsl.Group("g", b=b)
+        return lsl.GraphBuilder().add(lsl.Var(lsl.Calc(lambda x, y: x + y, a, b, update_on_init=False), name="total"))
+    rejected = {"2-cycle": cyc1, "self-loop": cyc2, "duplicate node names": dup_nodes, "duplicate variable names": dup_vars,
+                "duplicate variable names, all node names distinct": dup_vars_only, "duplicate group names": dup_groups}
+    for name, gbf in rejected.items():
+        for how in ("build_model()", "build_model(copy=True)", "Model(nodes_and_vars)"):
+            try:
+                gb = gbf()
+            except Inconclusive as ex:
+                chk.harness_error(f"rejected:{name}", str(ex))
+                break
+            try:
+                if how == "build_model()":
+                    gb.build_model()
+                elif how == "build_model(copy=True)":
+                    gb.build_model(copy=True)
+                else:
+                    lsl.Model(list(gb.nodes) + list(gb.vars))
+                chk.violation(f"accepted:{name}", f"a graph with a {name} was accepted by {how}", dict(reproduced=True, inputs=dict(entry=how), note="no exception raised"))
+                break
+            except Exception:
+                pass
+    chk.extra["concrete_family"] = dict(models=n_models, rejected_graphs=len(rejected), note="structural facts and round trips are concrete executions (not solver-quantified)")
+    chk.enumerated += [f"graph {k}" for k in fam] + list(rejected)
 
 
 def main():
